@@ -9,6 +9,8 @@ R02.f16c   rounding immediate of vcvtps2ph is round-to-nearest(-even), exception
            the half->float instruction receives h unmodified
 R02.pp     each macro configuration selects the intended back-end; half.cpp defines the table iff
            !IMATH_HALF_NO_LOOKUP_TABLE; the generated ImathConfig.h only defines IMATH_HALF_USE_LOOKUP_TABLE
+R02.sw     (the C01 rules R01.*, run again here): the software conversion shared by the table and no-table builds is IEEE
+           round-to-nearest-even, i.e. equals what the F16C instruction computes
 R02.gen    table generator halfToFloat(): closed forms per exponent cell (E >= 1, and zero) equal the
            same IEEE definition (hence equal the table on 63,490 entries) - without running it
 """
@@ -208,3 +210,9 @@ def main(rep, ws, tier):
     rep.assumptions += ['x86-64 clang 14 as the compiler of all configurations']
     rep.undecided_clauses += ['subnormal cell (E = 0, M != 0) of the bit-shift path (count-leading-zeros renormalisation) and of the generator (while loop)',
                               'F16C instruction semantics (outside the source); NaN payload on F16C', 'the generator\'s text formatting of the table']
+    # The F16C back-end rounds as IEEE (round-to-nearest-even, R02.f16c); the software back-ends agree with it iff
+    # the shared software conversion is itself IEEE-exact - which is what the C01 rules decide.  They are run here
+    # as part of this property so that a change of the software rounding is reported as a back-end divergence too.
+    from . import c01
+    c01.main(rep, ws, tier)
+
